@@ -181,8 +181,15 @@ class RegexCompiler:
                 (0xFEFF, 0xFEFF),
             ]
         elif ch == "S":
-            # Non-whitespace - simplified
-            return [(ord("!"), ord("~"))]  # Printable ASCII
+            # Non-whitespace: the complement of \s
+            result = []
+            low = 0
+            for start, end in sorted(self._expand_shorthand("s")):
+                if start > low:
+                    result.append((low, start - 1))
+                low = end + 1
+            result.append((low, 0x10FFFF))
+            return result
         else:
             raise RegExpError(f"Unknown shorthand: \\{ch}")
 
